@@ -1191,6 +1191,64 @@ fn e2e_body(c: &Comp3Case, rec: &mut Rec) -> CaseResult {
     comp_judge(zone, &c.params, hz, &q, c.qtype, &ev, e2e_secure, &render)
 }
 
+/// the configured iteration limits reach the validation of a real response: the zone's iteration
+/// count is 1 or 5, the limits are set just below it, at it, or left at the defaults
+fn limits_e2e_body(c: &Comp3Case, rec: &mut Rec) -> CaseResult {
+    let it = c.params.iterations;
+    if it == 0 {
+        rec.discard("zero-iterations-cannot-exceed-a-limit");
+        return Ok(());
+    }
+    let cx = hk_ctx(&c.zone, &c.params)?;
+    let (zone, hz) = (&cx.0, &cx.1);
+    let q = abs_q(zone, c.q.as_str());
+    let qn = to_name(&q);
+    let truth = zone.truth(&q, c.qtype);
+    if !truth.is_negative_or_wild() {
+        rec.discard(format!("truth-{}", truth.kind()));
+        return Ok(());
+    }
+    let mode = crate::core::fixed_hash(&[b"c09-limits-e2e", c.zone.as_str().as_bytes(), c.q.as_str().as_bytes(), &c.qtype.to_le_bytes()]) % 3;
+    let (soft, hard) = match mode {
+        0 => (it - 1, 500),
+        1 => (it - 1, it - 1),
+        _ => (it, it),
+    };
+    rec.class(match mode {
+        0 => "limits:soft-below-iterations",
+        1 => "limits:hard-below-iterations",
+        _ => "limits:equal-to-iterations",
+    });
+    let configured = super::c08::e2e_query(hz, &qn, c.qtype, Some((soft, hard)))?;
+    let default = super::c08::e2e_query(hz, &qn, c.qtype, Some((100, 500)))?;
+    let secure = |v: &E2eVerdict| matches!(v, E2eVerdict::Accepted { all_secure: true, .. });
+    let render = || {
+        format!(
+            "zone [{}] {} query {qn} {} truth {truth}: nsec3_iteration_limits(soft {soft}, hard {hard}) -> {configured:?}; defaults (100, 500) -> {default:?}",
+            zone.render(),
+            c.params.show(),
+            ty::mnemonic(c.qtype)
+        )
+    };
+    rec.class(if secure(&default) { "default-limits:secure" } else { "default-limits:not-secure" });
+    if secure(&default) {
+        rec.nontrivial();
+        if rec.wants_note() {
+            rec.note(render());
+        }
+    }
+    if it > soft {
+        // RFC 9276 3.2 as configured: above the soft limit never Secure, above the hard limit an error
+        vensure!(!secure(&configured), "nsec3-configured-iteration-limit-not-applied-end-to-end", "{}", render());
+        if it > hard {
+            vensure!(!matches!(configured, E2eVerdict::Accepted { .. }), "nsec3-configured-hard-limit-not-applied-end-to-end", "{}", render());
+        }
+    } else {
+        vensure!(secure(&configured) == secure(&default), "nsec3-limits-at-the-iteration-count-change-the-verdict", "{}", render());
+    }
+    Ok(())
+}
+
 fn comp_enum_cases(max_nodes: usize) -> Box<dyn Iterator<Item = Comp3Case> + Send> {
     let zl = zones::enum_zones(zones::APEX2, &zones::U2_NAMES, max_nodes);
     let ps = enum_params();
@@ -1415,10 +1473,11 @@ pub fn check() -> Option<Check> {
     );
     let comp_sampled = prop("complete_sampled", 12_000, 400_000, |_t: Tier| sampled_comp(8), comp_body);
     let comp_e2e = prop("complete_e2e", 5_000, 150_000, |_t: Tier| sampled_comp(6), e2e_body);
+    let limits_e2e = prop("iteration_limits_e2e", 6_000, 150_000, |_t: Tier| sampled_comp(6), limits_e2e_body);
     Some(Check {
         id: "C09",
         level: "exploration",
-        rule: "soundness case = (zone over labels {a,b,*} to depth 3 with hosts, CNAMEs, wildcards, empty non-terminals, delegations +/-DS, glue; NSEC3 parameters salt {0,1,8 octets} x iterations x Opt-Out; query name in or just outside the zone; query types) evaluated for every claim (NXDOMAIN, NODATA, each wildcard-expanded answer with a genuine RRSIG, NXDOMAIN+answer) x SOA name present/absent x every non-empty subset of the zone's genuine NSEC3 ring (all subsets for rings <= 6 records in sampled cases and <= 10 in enumerated ones, otherwise singletons, full, full-minus-one and 40 pseudo-random subsets); non-trivial when the query name is in the zone. sound_enum = exhaustive depth-2 sweep (quick <=1 owner, thorough <=2 owners; 4 parameter sets), sound_slice = 1/5 (quick) resp. 1/3 (thorough) slice of the next size. iteration_limits: iterations in {0,1,5,soft,soft+1,hard,hard+1} against configured (soft,hard): above hard every verdict must be Bogus, above soft none Secure. foreign_mix: subsets mixed with records of the same zone under other parameters (at least one of each) or of a disjoint zone (same or other parameters): never Secure unless the genuine part alone is. chain_*: hickory's generated ring = RFC 5155 7.1 ring of the model. Completeness case = (zone, parameters, query) with negative/wildcard truth answered by hickory's own NSEC3-signed zone, judged by verify_nsec3 (complete_enum, complete_sampled) and by DnssecDnsHandle (complete_e2e).",
+        rule: "soundness case = (zone over labels {a,b,*} to depth 3 with hosts, CNAMEs, wildcards, empty non-terminals, delegations +/-DS, glue; NSEC3 parameters salt {0,1,8 octets} x iterations x Opt-Out; query name in or just outside the zone; query types) evaluated for every claim (NXDOMAIN, NODATA, each wildcard-expanded answer with a genuine RRSIG, NXDOMAIN+answer) x SOA name present/absent x every non-empty subset of the zone's genuine NSEC3 ring (all subsets for rings <= 6 records in sampled cases and <= 10 in enumerated ones, otherwise singletons, full, full-minus-one and 40 pseudo-random subsets); non-trivial when the query name is in the zone. sound_enum = exhaustive depth-2 sweep (quick <=1 owner, thorough <=2 owners; 4 parameter sets), sound_slice = 1/5 (quick) resp. 1/3 (thorough) slice of the next size. iteration_limits: iterations in {0,1,5,soft,soft+1,hard,hard+1} against configured (soft,hard): above hard every verdict must be Bogus, above soft none Secure. foreign_mix: subsets mixed with records of the same zone under other parameters (at least one of each) or of a disjoint zone (same or other parameters): never Secure unless the genuine part alone is. chain_*: hickory's generated ring = RFC 5155 7.1 ring of the model. Completeness case = (zone, parameters, query) with negative/wildcard truth answered by hickory's own NSEC3-signed zone, judged by verify_nsec3 (complete_enum, complete_sampled) and by DnssecDnsHandle (complete_e2e). iteration_limits_e2e: the same responses through DnssecDnsHandle::nsec3_iteration_limits(soft, hard) with the limits just below / at the zone's iteration count (1 or 5): above soft never Secure, above hard an error, at the count the default verdict.",
         assumptions: vec![
             "truth predicate = refm::zonemodel (RFC 1034 4.3.2, RFC 4592, RFC 4035 3.1.4); NSEC3 ring per RFC 5155 7.1 with all records carrying the Opt-Out flag when the zone opts out and insecure delegations (and ENTs only leading to them) omitted; reference hash checked against RFC 5155 Appendix A at start-up",
             "a Secure NODATA/DS verdict resting on an Opt-Out cover is accepted when the zone has no DS there and the name is not at/below a secure delegation (RFC 5155 6, 8.6)",
@@ -1437,6 +1496,7 @@ pub fn check() -> Option<Check> {
             comp_enum,
             comp_sampled,
             comp_e2e,
+            limits_e2e,
         ],
     })
 }
